@@ -474,6 +474,30 @@ def r7_failed_validation_leaves_no_mark(chk: Check):
                     "its validation, so a missing required value is accepted at submission", chk.loc(f.module, x))
 
 
+
+def r8_known_gaps(chk: Check):
+    """Three validators that store a value that is not of the declared type, or refuse one that is (findings kept in known_findings.json)"""
+    tree = chk.tree
+    bt = tree.func("core.types", "BoolType.validate")
+    rets = [x for x in body_walk(bt.node) if isinstance(x, ast.Return) and x.value is not None]
+    raises = [x for x in body_walk(bt.node) if isinstance(x, ast.Raise)]
+    coerces = any(isinstance(x.value, ast.Call) and dotted(x.value.func) == "bool" for x in rets)
+    chk.require(not coerces or bool(raises), chk.fkey(bt, "bool accepts anything"), "BoolType.validate is `return bool(value)`: 'false', 'no', a list or a configuration are accepted and stored as their truth value "
+                "(Param[bool] := 'false' stores True)", chk.loc(bt.module, bt.node))
+    ot = tree.func("core.types", "ObjectType.validate")
+    g = CFG(ot.node)
+    none_ok = [n for n in g.live if n.kind == "stmt" and isinstance(n.ast, ast.Return) and (n.ast.value is None or (isinstance(n.ast.value, ast.Constant) and n.ast.value.value is None))
+               and any(src(t.ast) == "value is None" and pol is True for t, pol in g.guards(n) if t.kind == "test")]
+    chk.require(not none_ok, chk.fkey(ot, "None accepted as a configuration"), "ObjectType.validate returns None for None: `List[Layer] := [Layer(), None]` and `Dict[str, Layer] := {'a': None}` are stored "
+                "(a List[int] rejects None); the submission fails later, by accident, in the sealing walk", chk.loc(ot.module, ot.node))
+    et = tree.func("core.types", "EnumType.validate")
+    un = tree.func("core.types", "UnionType.validate")
+    by_assert = any(isinstance(x, ast.Assert) for x in body_walk(et.node))
+    caught = any(h.type is not None and "AssertionError" in src(h.type) or h.type is None for h in ast.walk(un.node) if isinstance(h, ast.ExceptHandler))
+    chk.require(not by_assert or caught, chk.fkey(un, "an enumeration member aborts a Union"), "EnumType.validate reports a mismatch with `assert` and UnionType.validate only catches ValueError / TypeError: "
+                "Union[Pooling, int] := 3 is rejected instead of trying int", chk.loc(un.module, un.node))
+
+
 RULES = [
     ("R1", "every Type.validate is total: no non-raising path returns None / falls off the end (except None stays None)", r1_validate_total),
     ("R2", "ConfigInformation.set decision table over all 64 assignments of its atoms on an unsealed configuration: stores the *validated* value, raises when sealed / read-only / required-None; nobody else stores into values; Argument.validate returns the coerced value", r2_set_table),
@@ -482,4 +506,5 @@ RULES = [
     ("R6", "declared types are resolved exactly: basic types by the key itself, enumerations recognised", r6_type_resolution),
     ("R7", "a failed validation leaves no configuration marked as validated: every raising site after the mark is covered by a handler that resets it and re-raises", r7_failed_validation_leaves_no_mark),
     ("R5", "submit validates and seals before anything is registered (= C14.R3)", r5_submit_validates_first),
+    ("R8", "validators with a wrong verdict (findings kept in known_findings.json): bool accepts anything, None inside containers of configurations, enumeration member of a Union", r8_known_gaps),
 ]
